@@ -104,6 +104,16 @@ func corpusFiles() []gram.Named2 {
 			// the program section is known exactly: everything after the second %% line of the rendering
 			epi := text[strings.LastIndex(text, "\n%%\n")+len("\n%%\n"):] // the harness epilogue has %% only inside a line
 			out = append(out, gram.Named2{Name: "family+actions:" + n.Name, Text: text, Epilogue: epi})
+			if n.Name == "slr-expr" {
+				// a program section with one line of 70 000 characters (a table pasted on one line)
+				long := "\nvar bigTable = []int{" + strings.Repeat("1, ", 23400) + "2}\n"
+				out = append(out, gram.Named2{Name: "family+actions:" + n.Name + "/70k-line-in-epilogue", Text: text + long, Epilogue: epi + long, NoEdits: true})
+				// explicit token numbers of thirteen and nineteen digits
+				bigNum := strings.Replace(text, "%token <s> TA", "%token <s> TA 3000000000000", 1)
+				if bigNum != text {
+					out = append(out, gram.Named2{Name: "family+actions:" + n.Name + "/token-number-3e12", Text: bigNum, Epilogue: epi, NoEdits: true})
+				}
+			}
 			if n.Name == "nullable-chain" {
 				// the same file with program text starting on the line of the second %% (legal yacc)
 				at := strings.LastIndex(text, "\n%%\n") + len("\n%%")
